@@ -532,3 +532,167 @@ Proof.
   - subst m0. apply checker_except_sound. exact H0.
   - apply IH; assumption.
 Qed.
+
+(* ==== STRICT reading (added by the coverage audit) ======================================================= *)
+Lemma is_global_strictb_spec : forall e m x,
+  is_global_strictb e (global_bindings m) x = true <-> is_global_strict e m x.
+Proof.
+  intros e m x. unfold is_global_strictb, is_global_strict.
+  rewrite andb_true_iff, negb_true_iff. split.
+  - intros [H1 H2]. split.
+    + apply existsb_exists in H1. destruct H1 as [[y b] [Hin Hb]]. simpl in Hb.
+      apply andb_true_iff in Hb. destruct Hb as [Hy He]. apply String.eqb_eq in Hy. subst y.
+      exists b. split; [apply global_bindings_spec; exact Hin | exact He].
+    + intro Hd. apply global_bindings_spec in Hd.
+      assert (Ht : existsb (fun xk => String.eqb x (fst xk) && bkind_is_del (snd xk)) (global_bindings m) = true).
+      { apply existsb_exists. exists (x, BDel). split; [exact Hd|]. simpl. rewrite String.eqb_refl. reflexivity. }
+      rewrite Ht in H2. discriminate.
+  - intros [[b [Hb He]] Hnd]. split.
+    + apply existsb_exists. exists (x, b). split; [apply global_bindings_spec; exact Hb|].
+      simpl. rewrite String.eqb_refl, He. reflexivity.
+    + destruct (existsb _ (global_bindings m)) eqn:Ex; [|reflexivity].
+      exfalso. apply existsb_exists in Ex. destruct Ex as [[y b'] [Hin Hb']]. simpl in Hb'.
+      apply andb_true_iff in Hb'. destruct Hb' as [Hy Hd]. apply String.eqb_eq in Hy. subst y.
+      destruct b'; try discriminate. apply Hnd. apply global_bindings_spec. exact Hin.
+Qed.
+
+Lemma resolves_strict_b_spec : forall e m st x,
+  resolves_strict_b e (global_bindings m) st x = true <-> Resolves_strict e m st x.
+Proof.
+  intros e m st x. unfold resolves_strict_b, Resolves_strict. split.
+  - destruct (classify_b st x) as [r|] eqn:Ec; [|discriminate].
+    apply classify_b_sound in Ec. intro H. exists r. split; [exact Ec|].
+    intro Hr. subst r. apply orb_true_iff in H. destruct H as [H | H].
+    + apply orb_true_iff in H. destruct H as [H | H].
+      * left. destruct st; [|discriminate]. split; [reflexivity | apply is_globalb_spec; exact H].
+      * right. left. apply is_global_strictb_spec. exact H.
+    + right. right. apply memb_spec. exact H.
+  - intros [r [Hc Hr]]. apply classify_b_complete in Hc. rewrite Hc.
+    destruct r; try reflexivity.
+    destruct (Hr eq_refl) as [[Hst Hg] | [Hg | Hb]].
+    + subst st. apply is_globalb_spec in Hg. rewrite Hg. reflexivity.
+    + apply is_global_strictb_spec in Hg. rewrite Hg. rewrite orb_true_r. reflexivity.
+    + apply memb_spec in Hb. rewrite Hb. apply orb_true_r.
+Qed.
+
+Lemma filter_eff_spec : forall e (g : list (string * bkind)) x y b,
+  In (y, b) (filter (fun xk => String.eqb x (fst xk) && effective e (snd xk)) g) <->
+  y = x /\ In (x, b) g /\ effective e b = true.
+Proof.
+  intros e g x y b. rewrite filter_In. simpl. rewrite andb_true_iff. split.
+  - intros [Hin [Hb He]]. apply String.eqb_eq in Hb. subst y. auto.
+  - intros [Hy [Hin He]]. subst y. rewrite String.eqb_refl. auto.
+Qed.
+
+Lemma alias_of_strict_spec : forall e m x key,
+  alias_of_strict e (global_bindings m) x = Some key <-> alias_strict e m x key.
+Proof.
+  intros e m x key. unfold alias_of_strict, alias_strict.
+  pose proof (filter_eff_spec e (global_bindings m) x) as HF.
+  destruct (is_global_strictb e (global_bindings m) x) eqn:Eg.
+  2:{ split; [discriminate|]. intros [Hg _]. apply is_global_strictb_spec in Hg. congruence. }
+  apply is_global_strictb_spec in Eg.
+  destruct (filter _ (global_bindings m)) as [|[y b] rest] eqn:Ef.
+  - split; [discriminate|]. intros _. exfalso.
+    destruct Eg as [[b [Hb He]] _]. apply global_bindings_spec in Hb.
+    apply (HF x b). auto.
+  - assert (Hy : y = x /\ In (x, b) (global_bindings m) /\ effective e b = true)
+      by (apply (HF y b); left; reflexivity).
+    destruct Hy as [Hy [Hbin Hbe]]. subst y. split.
+    + destruct (bkind_module e b) as [key0|] eqn:Eb; [|discriminate].
+      destruct (forallb _ rest) eqn:Ea; [|discriminate].
+      intro H. inversion H; subst key0. clear H. split; [exact Eg|].
+      intros b' Hb' He'. apply global_bindings_spec in Hb'.
+      assert (Hin : In (x, b') ((x, b) :: rest)) by (apply HF; auto).
+      destruct Hin as [Heq | Hin].
+      * inversion Heq; subst. exact Eb.
+      * rewrite forallb_forall in Ea. apply Ea in Hin. simpl in Hin. apply opt_eqb_spec in Hin. exact Hin.
+    + intros [_ Hall].
+      assert (Hb : bkind_module e b = Some key).
+      { apply Hall; [apply global_bindings_spec; exact Hbin | exact Hbe]. }
+      rewrite Hb.
+      assert (Ea : forallb (fun xk => opt_eqb (bkind_module e (snd xk)) (Some key)) rest = true).
+      { apply forallb_forall. intros [y b'] Hin. simpl. apply opt_eqb_spec.
+        assert (H2 : y = x /\ In (x, b') (global_bindings m) /\ effective e b' = true)
+          by (apply HF; right; exact Hin).
+        destruct H2 as [_ [H2 H3]]. apply Hall; [apply global_bindings_spec; exact H2 | exact H3]. }
+      rewrite Ea. reflexivity.
+Qed.
+
+Lemma item_okb_strict_spec : forall e m st it,
+  item_okb_strict e (global_bindings m) st it = true <-> item_ok_strict e m st it.
+Proof.
+  intros e m st it. destruct it; simpl; try (split; intro; [exact I | reflexivity]).
+  - apply resolves_strict_b_spec.
+  - rewrite andb_true_iff, resolves_strict_b_spec. unfold attr_ok_strictb. split.
+    + intros [Hr Ha]. split; [exact Hr|]. intros key Hc Hal.
+      apply classify_b_complete in Hc. rewrite Hc in Ha.
+      apply alias_of_strict_spec in Hal. rewrite Hal in Ha. apply chain_okb_spec. exact Ha.
+    + intros [Hr Ha]. split; [exact Hr|].
+      destruct (classify_b st x) as [[| |]|] eqn:Ec; try reflexivity.
+      destruct (alias_of_strict e (global_bindings m) x) as [key|] eqn:Eal; [|reflexivity].
+      apply chain_okb_spec. apply Ha; [apply classify_b_sound; exact Ec | apply alias_of_strict_spec; exact Eal].
+  - destruct (mod_attr e key name); split; intro H; try reflexivity; try discriminate.
+    exfalso. apply H. reflexivity.
+  - split; [discriminate | contradiction].
+Qed.
+
+Theorem checker_strict_sound : forall allow e m,
+  check_module_strict allow e m = true -> module_ok_strict allow e m.
+Proof.
+  intros allow e m H st it [Hs Hin] Hne. unfold check_module_strict in H.
+  rewrite forallb_forall in H. apply all_scopes_spec in Hs. specialize (H st Hs).
+  rewrite forallb_forall in H. specialize (H it Hin).
+  apply orb_true_iff in H. destruct H as [H | H].
+  - exfalso. apply Hne. apply exceptedb_spec. exact H.
+  - apply item_okb_strict_spec. exact H.
+Qed.
+
+Theorem checker_strict_complete : forall allow e m,
+  module_ok_strict allow e m -> check_module_strict allow e m = true.
+Proof.
+  intros allow e m H. unfold check_module_strict.
+  apply forallb_forall. intros st Hs. apply forallb_forall. intros it Hin.
+  apply all_scopes_spec in Hs.
+  destruct (exceptedb allow st it) eqn:Ee; [reflexivity|]. simpl.
+  apply item_okb_strict_spec. apply H; [split; assumption|].
+  apply (bool_spec_false _ _ (exceptedb_spec allow st it)). exact Ee.
+Qed.
+
+Theorem unresolved_strict_spec : forall allow e m u t l,
+  In (u, t, l) (unresolved_strict allow e m) <->
+  exists st it, occurs m st it /\ ~ excepted allow st it /\ ~ item_ok_strict e m st it /\
+                u = unit_of st /\ t = item_text it /\ l = item_line it.
+Proof.
+  intros allow e m u t l. unfold unresolved_strict. rewrite in_flat_map. split.
+  - intros [st [Hs Hin]]. apply in_flat_map in Hin. destruct Hin as [it [Hit Hin]].
+    destruct (exceptedb allow st it) eqn:Ee; simpl in Hin; [contradiction|].
+    destruct (item_okb_strict e (global_bindings m) st it) eqn:Eo; simpl in Hin; [contradiction|].
+    destruct Hin as [Heq | []]. inversion Heq; subst.
+    exists st, it. repeat split.
+    + apply all_scopes_spec. exact Hs.
+    + exact Hit.
+    + apply (bool_spec_false _ _ (exceptedb_spec allow st it)). exact Ee.
+    + apply (bool_spec_false _ _ (item_okb_strict_spec e m st it)). exact Eo.
+  - intros [st [it [[Hs Hit] [Hne [Hno [Hu [Ht Hl]]]]]]]. subst.
+    exists st. split; [apply all_scopes_spec; exact Hs|].
+    apply in_flat_map. exists it. split; [exact Hit|].
+    apply (bool_spec_false _ _ (exceptedb_spec allow st it)) in Hne. rewrite Hne.
+    apply (bool_spec_false _ _ (item_okb_strict_spec e m st it)) in Hno. rewrite Hno.
+    left. reflexivity.
+Qed.
+
+Fixpoint all_checked_strict (e : env) (known : module -> list (string * string)) (pkg : list module) : bool :=
+  match pkg with
+  | [] => true
+  | m :: t => check_module_strict (known m) e m && all_checked_strict e known t
+  end.
+
+Lemma all_modules_ok_strict : forall e pkg known,
+  all_checked_strict e known pkg = true -> forall m, In m pkg -> module_ok_strict (known m) e m.
+Proof.
+  intros e pkg known. induction pkg as [|m0 t IH]; simpl; intros H m Hin; [contradiction|].
+  apply andb_true_iff in H. destruct H as [H0 Ht]. destruct Hin as [He | Hin].
+  - subst m0. apply checker_strict_sound. exact H0.
+  - apply IH; assumption.
+Qed.
